@@ -165,6 +165,8 @@ pub enum Beh {
     PanicLate(u16),
     /// block inside `run` until `.0` systems are inside `run` (rendezvous group of the dispatch)
     Rendezvous(u16),
+    /// the FIRST call of the system's setup hook panics (the caller recovers and sets up again)
+    PanicSetupOnce,
 }
 
 pub struct Rendezvous {
@@ -393,7 +395,20 @@ pub struct HData<'a> {
 impl<'a> DynamicSystemData<'a> for HData<'a> {
     type Accessor = HAcc;
 
-    fn setup(_: &HAcc, _: &mut World) {}
+    /// The harness systems do NOT override `System::setup`: the library's default hook hands the system's own
+    /// accessor (`System::accessor`, not a default-constructed one) to this function, which is what gets counted.
+    fn setup(acc: &HAcc, _: &mut World) {
+        if acc.id != usize::MAX {
+            let n = {
+                let mut s = acc.ctx.setups.lock().unwrap();
+                s[acc.id] += 1;
+                s[acc.id]
+            };
+            if n == 1 && matches!(acc.ctx.beh_of(acc.id), Beh::PanicSetupOnce) {
+                inject_panic(&acc.ctx, "setup", acc.id);
+            }
+        }
+    }
 
     fn fetch(acc: &HAcc, world: &'a World) -> Self {
         let ctx = acc.ctx.clone();
@@ -457,6 +472,8 @@ pub fn running_time(t: u8) -> RunningTime {
         2 => RunningTime::Short,
         3 => RunningTime::Average,
         4 => RunningTime::Long,
+        // user code that panics while the builder asks for the hint (the registration call unwinds)
+        9 => panic!("HSYS running_time panics"),
         _ => RunningTime::VeryLong,
     }
 }
@@ -564,10 +581,6 @@ impl<'a> System<'a> for HSys {
 
     fn accessor<'b>(&'b self) -> AccessorCow<'a, 'b, Self> {
         AccessorCow::Ref(&self.acc)
-    }
-
-    fn setup(&mut self, _world: &mut World) {
-        self.acc.ctx.setups.lock().unwrap()[self.acc.id] += 1;
     }
 
     fn dispose(self, _world: &mut World) {
